@@ -102,3 +102,23 @@ pub fn crc32(args: &[&str]) -> String {
         _ => "BADCASE".into(),
     }
 }
+
+/// DECA x<bytes> -> (OK|ERR) PEAK <bytes>: decode under the counting allocator; PEAK = high-water mark of the bytes
+/// allocated by the decoder above the level before the call (implementation only; the model prints NA)
+pub fn deca(args: &[&str]) -> String {
+    match args {
+        [t] => match get_bytes(t) {
+            Some(b) => {
+                let base = crate::chan_ffi::live_bytes();
+                crate::chan_ffi::peak_reset();
+                let r = Bundle::try_from(b.as_slice());
+                let peak = crate::chan_ffi::peak_above(base);
+                let tag = if r.is_ok() { "OK" } else { "ERR" };
+                drop(r);
+                format!("{} PEAK {}", tag, peak)
+            }
+            None => "BADCASE".into(),
+        },
+        _ => "BADCASE".into(),
+    }
+}
